@@ -325,6 +325,11 @@ def run_buffer(report, b):
 # ------------------------------------------------------------------------------------------------
 # PrintBuffer
 # ------------------------------------------------------------------------------------------------
+def pb_value(epoch, serial):
+    """the printed strings: tagged with epoch and serial, except serial 1, which is an EMPTY line (a legitimate value)"""
+    return "" if serial == 1 else "<%d.%d>" % (epoch, serial)
+
+
 class PBRef:
     def __init__(self):
         self.wait = 0
@@ -379,6 +384,10 @@ def pb_observe(pb, out, ref, end, where, op):
 def pb_history(variant, hist, stats):
     """hist: ("p", serial) | ("f",) | ("c",); values are tagged with the epoch (number of clears so far)"""
     end, pflush = variant
+    # a second buffer that is alive at the same time and holds one value back: buffers are independent objects
+    decoy_out = io.StringIO()
+    decoy = PrintBuffer(decoy_out)
+    decoy.print(3, "decoy")
     out = io.StringIO()
     pb = PrintBuffer(out, pflush, end) if variant != PB_VARIANTS[0] else PrintBuffer(out)
     ref = PBRef()
@@ -388,7 +397,7 @@ def pb_history(variant, hist, stats):
         where = "after step %d %r" % (k, op)
         stats["failed_at"] = k
         if op[0] == "p":
-            v = "<%d.%d>" % (epoch, op[1])
+            v = pb_value(epoch, op[1])
             r = observe(pb.print, op[1], v)
             exp = ref.print(op[1], v)
             if not exp:
@@ -414,6 +423,10 @@ def pb_history(variant, hist, stats):
                 raise fail("clear-raises", "clear", "clear() -> %r %s" % (r, where))
             name = "clear"
         pb_observe(pb, out, ref, end, where, name)
+        d = (observe(len, decoy), observe(lambda: decoy.waiting_for), decoy_out.getvalue())
+        if d != (("ok", 1), ("ok", 0), ""):
+            raise fail("other-buffer-disturbed", name, "another PrintBuffer holding serial 3 shows (len, waiting_for, output) = %r %s "
+                       "of this buffer" % (d, where))
     stats["failed_at"] = None
     if not ref.flushed and epoch == 0 and ref.wait != len(ref.out):
         raise AssertionError("reference: waiting_for is not the number emitted")
@@ -426,7 +439,7 @@ def pb_snippet(variant, hist):
     epoch = 0
     for op in hist:
         if op[0] == "p":
-            lines.append("print(pb.print(%d, %r), repr(out.getvalue()), pb.waiting_for, len(pb))" % (op[1], "<%d.%d>" % (epoch, op[1])))
+            lines.append("print(pb.print(%d, %r), repr(out.getvalue()), pb.waiting_for, len(pb))" % (op[1], pb_value(epoch, op[1])))
         elif op[0] == "f":
             lines.append("pb.flush(); print(repr(out.getvalue()), pb.waiting_for, len(pb))")
         else:
